@@ -70,8 +70,19 @@ XSI = "http://www.w3.org/2001/XMLSchema-instance"
 # ------------------------------------------------------------------ model driver
 
 
-DRIVER_MODULES = ["Capella/Model/Xml", "Capella/Model/XmlParse", "Capella/Model/XmlSpec", "Capella/Driver/Util",
-                  "Capella/Driver/Xml"]
+def driver_modules(root: str = "Capella.Driver.Xml") -> list[str]:
+    """the driver and every `Capella.*` module it imports (transitively), as paths below the Lake root"""
+    seen: dict[str, None] = {}
+    todo = [root]
+    while todo:
+        mod = todo.pop()
+        if mod in seen:
+            continue
+        seen[mod] = None
+        src = (common.LEAN / (mod.replace(".", "/") + ".lean")).read_text()
+        todo.extend(re.findall(r"^import\s+(Capella\.\S+)", src, re.M))
+    return sorted(m.replace(".", "/") for m in seen)
+
 
 
 def native_driver() -> list[str] | None:
@@ -84,7 +95,8 @@ def native_driver() -> list[str] | None:
 
     ir = common.LEAN / ".lake" / "build" / "ir"
     try:
-        key = hashlib.sha256(b"".join((ir / (m + ".c.hash")).read_bytes() for m in DRIVER_MODULES)).hexdigest()[:16]
+        mods = driver_modules()
+        key = hashlib.sha256(b"".join((ir / (m + ".c.hash")).read_bytes() for m in mods)).hexdigest()[:16]
         bindir = common.LEAN / ".lake" / "build" / "bin"
         bindir.mkdir(parents=True, exist_ok=True)
         exe = bindir / f"xmldrv-{key}"
@@ -94,7 +106,7 @@ def native_driver() -> list[str] | None:
                 for old in bindir.glob("xmldrv-*"):
                     old.unlink()
                 tmp = bindir / f"xmldrv-{key}.tmp"
-                p = subprocess.run(["leanc", "-O2", "-o", str(tmp), *[str(ir / (m + ".c")) for m in DRIVER_MODULES]],
+                p = subprocess.run(["leanc", "-O2", "-o", str(tmp), *[str(ir / (m + ".c")) for m in mods]],
                                    capture_output=True, timeout=600)
                 if p.returncode != 0 or not tmp.exists():
                     return None
@@ -236,7 +248,7 @@ def build_doc(etree, d):
 
 def capella_shaped(doc: dict) -> bool:
     """The domain of the property's quantifier (and of the Lean predicate `WFDoc`): no mixed content, no
-    tails, text only where it is not white space, no default namespace, no shadowed prefix, namespace URIs free of
+    tails, text only on childless elements and not the empty string, no default namespace, no shadowed prefix, namespace URIs free of
     markup characters, comments without '>' / line breaks."""
     for text, tail in doc["pre"] + doc["post"]:
         if tail is not None or any(ch in text for ch in ">\n\r"):
@@ -254,7 +266,7 @@ def capella_shaped(doc: dict) -> bool:
         sc = dict(scope)
         sc.update({p: u for p, u in own})
         if text is not None:
-            if kids or not text.strip():
+            if kids or text == "":
                 return False
         names = [tag] + [k for k, _ in attrs]
         for n in names:
